@@ -162,6 +162,18 @@ def runsOf (nh made n : Nat) : List Nat := (List.range nh).map fun j => if j = m
 def sessObsOf (nh made : Nat) (r : Req) : Option SObs :=
   (obsOf r).map fun o => { obs := o, hr := runsOf nh made o.ran }
 
+/-- The scripted verifier of a session works until `s.now` and honours its context meanwhile: when
+the request (entered at `at_`) loses its client at `cx` before the verifier is through, the verifier
+returns `ctx.Err()` — an error that is neither sentinel — at that instant (at once if the context
+was already cancelled on entry).  A verifier that has nothing to wait for does not look at the context. -/
+def Script.withCancel (at_ : Int) (cx : Option Int) (s : Script) : Script :=
+  match cx with
+  | some c =>
+    if at_ < s.now ∧ c < s.now then
+      { s with err := some { isInvalid := false, isOAuth := false, msg := "context canceled" }, info := none, now := max c at_ }
+    else s
+  | none => s
+
 /-- The request of a `sreq` record: one scripted middleware under the value's options. -/
 def Req.ofSession (opts : Option (Opts String)) (hdr : List Char) (s : Script) : Req :=
   Req.ofScript hdr [{ s with opts := opts }] none
